@@ -1093,6 +1093,14 @@ def run(ctx):
     ctx.check(okr, "R06-10", "pmtree::remove_indices removal set", "values[i - first] = default leaf if i is listed else tree.get(i), for i in first..=last; written at first", whyr, loc(it))
     check_delegation(ctx, fb)
     check_store_adapter(ctx, fb)
+    # R06-12 (shared with C16 R16-4): a persistent tree opened again at its location IS the stored tree: loading reports "nothing
+    # stored" only for a location that held nothing, and creation (which resets depth, next index and the left-most nodes) happens
+    # only on that report - otherwise the reopened tree is a mixture of a fresh tree and the old records
+    from . import c16 as _c16
+    _sub = type(ctx)(ctx.pid, ctx.tier)
+    _c16.check_open(_sub, fb)
+    for r in _sub.results:
+        (ctx.ok if r.status == "ok" else ctx.fail)("R06-12", r.instance, r.reason, r.loc)
     check_subtree_root(ctx, fb)
     check_plain_observers(ctx, fb)
     check_writers(ctx, fb)
